@@ -162,9 +162,16 @@ class Array:
                 chunk_data = [parse_data(part, type_code=self.type_code) for part in raw_bytes]
                 data_.extend(chunk_data)
 
-            data = np.stack(data_, axis=0)
+            if data_:
+                data = np.stack(data_, axis=0)
+            else:
+                # empty selection: nothing to stack, but the result still has the image's columns and dtype
+                dtype = parse_data(b"", type_code=self.type_code).dtype
+                data = np.empty((0, *self.shape[1:]), dtype=dtype)
 
-        new_indexers = tuple(cons(slice(None), indexers[1:]))
+        # an integer selects a single row and drops the axis, like numpy basic indexing
+        row_indexer = 0 if isinstance(indexers[0], int) else slice(None)
+        new_indexers = tuple(cons(row_indexer, indexers[1:]))
         return data[new_indexers]
 
     @property
